@@ -10,20 +10,19 @@ Open Scope Z_scope.
    reported before sells, each side by order id), the series make room, the fundamental price is recorded, and the last-trade, mid and
    market price of the previous step are carried over - the market price becoming the previous last-trade price or, failing that, the
    previous mid price while the market runs; at time 0 a missing market price is the fundamental price *)
-Ltac red_tick := cbv -[Z.add Z.sub Z.gtb Z.ltb filter by_id fill_until upd geto zi map app expired negb is_none].
+Ltac red_tick := cbv -[Z.add Z.sub Z.gtb Z.ltb filter by_id fill_until upd geto zi map app expired].
 
+(* the proof does not depend on how the source spells its case distinctions: both sides are reduced call-by-value, the result of
+   fill_until is named (it keeps the time), and every test and every entry read is split into its cases *)
 Theorem gen_update_time_is_tick : forall m f, update_time_gen m f = tick m f.
 Proof.
   intros m f. destruct m as [id tk t run nx bs ss mp la mi fu vo tu nb ns go].
-  red_tick. rewrite <- !app_assoc, !map_app.
+  red_tick. rewrite <- ?app_assoc, ?map_app.
   match goal with |- context [fill_until ?a ?b] => pose proof (proj1 (fill_until_other a b)) as Ht; revert Ht; generalize (fill_until a b) end.
   intros [id' tk' t' run' nx' bs' ss' mp' la' mi' fu' vo' tu' nb' ns' go'] Ht. cbn [m_time] in Ht. subst t'.
   red_tick.
-  destruct (t + 1 >? 0).
-  - destruct run'; [|reflexivity].
-    destruct (geto (upd la' _ _) _) as [l|]; [reflexivity|].
-    destruct (geto (upd mi' _ _) _) as [x|]; reflexivity.
-  - destruct (geto mp' (t + 1)); reflexivity.
+  destruct (t + 1 >? 0); destruct run'; try reflexivity;
+    repeat match goal with |- context [geto ?l ?i] => destruct (geto l i) end; reflexivity.
 Qed.
 Print Assumptions gen_update_time_is_tick.
 
